@@ -83,7 +83,7 @@ def ocaml_build(force=False):
     d = os.path.join(BUILD, "ocaml")
     exe = os.path.join(d, "modelrun")
     srcs = [os.path.join(COQ, f) for f in os.listdir(COQ) if f.endswith(".vo")] + \
-           [os.path.join(VERIF, "ocaml", "modelrun.ml"), os.path.join(COQ, "Extract.v")]
+           [os.path.join(VERIF, "ocaml", "modelrun.ml"), os.path.join(VERIF, "ocaml", "tabrun.ml"), os.path.join(COQ, "Extract.v")]
     if not force and os.path.exists(exe) and all(os.path.getmtime(exe) >= os.path.getmtime(s) for s in srcs if os.path.exists(s)):
         return exe, "cached"
     os.makedirs(d, exist_ok=True)
@@ -91,7 +91,9 @@ def ocaml_build(force=False):
     if rc != 0:
         return None, out + err
     shutil.copy(os.path.join(VERIF, "ocaml", "modelrun.ml"), d)
-    rc, out2, err2 = sh("ocamlfind ocamlopt -O2 -w -a model.mli model.ml modelrun.ml -o modelrun", cwd=d, timeout=600)
+    shutil.copy(os.path.join(VERIF, "ocaml", "tabrun.ml"), d)
+    rc, out2, err2 = sh("ocamlfind ocamlopt -O2 -w -a model.mli model.ml modelrun.ml -o modelrun && "
+                        "ocamlfind ocamlopt -O2 -w -a model.mli model.ml tabrun.ml -o tabrun", cwd=d, timeout=600)
     if rc != 0:
         return None, out + err + out2 + err2
     return exe, out + err + out2 + err2
@@ -99,16 +101,27 @@ def ocaml_build(force=False):
 # ----------------------------------------------------------------------------
 # Go scratch copy
 
-def go_scratch(overlays=("overlay_seq",), builds=(("verifseq", "./cmd/verifseq"),)):
-    """copy /repo's working tree to a scratch dir, rewrite, overlay, build drivers.
-    Returns (dir, {name: exe}, log) ; exe None if the build failed."""
+def go_scratch(mode="seq", builds=None):
+    """copy /repo's working tree to a scratch dir with the go/ast rewriter
+    (harness/rewrite: clock -> vclock, sync/atomic & friends -> vsched shims, which
+    pass through when no scheduler run is active), add the overlays, build drivers.
+    mode "seq": the runtime's own hash functions are kept; mode "sched": they are
+    replaced by deterministic ones so that schedules replay across processes.
+    Returns (dir, {name: exe or None}, log)."""
+    if builds is None:
+        builds = (("verifseq", "./cmd/verifseq"), ("veriftab", "./cmd/veriftab")) if mode == "seq" else (("verifsched", "./cmd/verifsched"),)
     d = scratch_dir("verif-go-")
     dst = os.path.join(d, "src")
-    ovs = [os.path.join(VERIF, "harness", o) for o in overlays]
-    rc, out, err = sh([sys.executable, os.path.join(VERIF, "bin", "mkscratch.py"), dst] + ovs, timeout=120)
+    tmp_ov = os.path.join(d, "overlay")
+    shutil.copytree(os.path.join(VERIF, "harness", "overlay"), tmp_ov)
+    shutil.copytree(os.path.join(VERIF, "harness", "overlay_seq"), tmp_ov, dirs_exist_ok=True)
+    cmd = ["go", "run", ".", "-src", REPO, "-dst", dst, "-overlay", tmp_ov]
+    if mode == "seq":
+        cmd.append("-keep-runtime-hash")
+    rc, out, err = sh(cmd, cwd=os.path.join(VERIF, "harness", "rewrite"), env=GOENV, timeout=300)
     log = out + err
     exes = {}
-    if rc != 0:
+    if rc != 0 or "UNSHIMMED" in out:
         return d, {n: None for n, _ in builds}, log
     for name, pkg in builds:
         exe = os.path.join(d, name)
